@@ -543,9 +543,14 @@ class Element(ABC):
             String keys corresponding to parameters.
             The values can be anything.
         """
-        self.set_values(**self.get_default_values(*args, **kwargs))
-        self.set_lower_limits(**self.get_default_lower_limits(*args, **kwargs))
+        # The current limits may lie beyond the default limits, so the
+        # default limits are applied in an order that is always feasible.
+        self.set_lower_limits(
+            **{k: -inf for k in self.get_default_lower_limits(*args, **kwargs)}
+        )
         self.set_upper_limits(**self.get_default_upper_limits(*args, **kwargs))
+        self.set_lower_limits(**self.get_default_lower_limits(*args, **kwargs))
+        self.set_values(**self.get_default_values(*args, **kwargs))
         self.set_fixed(**self.are_fixed_by_default(*args, **kwargs))
 
     def reset_parameter(self, key: str):
@@ -557,9 +562,10 @@ class Element(ABC):
         key: str
             A string key corresponding to a parameter.
         """
-        self.set_values(key, self.get_default_value(key))
-        self.set_lower_limits(key, self.get_default_lower_limit(key))
+        self.set_lower_limits(key, -inf)
         self.set_upper_limits(key, self.get_default_upper_limit(key))
+        self.set_lower_limits(key, self.get_default_lower_limit(key))
+        self.set_values(key, self.get_default_value(key))
         self.set_fixed(key, self.is_fixed_by_default(key))
 
     def are_fixed(self, *args, **kwargs) -> Dict[str, bool]:
